@@ -54,7 +54,10 @@ Definition is_char_at (buf : bytes) (at_ : nat) (ch : nat) : bool :=
   end.
 
 (** isStringAt: [at+len(s) > len(buf)] -> false, otherwise bytewise comparison; the
-    bytewise comparison below fails exactly when it leaves the buffer *)
+    bytewise comparison below fails exactly when it leaves the buffer.
+    (The Go loop is [for i := range s], over the runes of s: bytewise for the ASCII patterns
+    used by scanSpaceToken; since commit 2ecf680 it is [for i := 0; i < len(s); i++], bytewise for
+    every pattern; see [bom_at_runewise_old] below for the difference.) *)
 Fixpoint is_string_at (buf : bytes) (at_ : nat) (s : bytes) : bool :=
   match s with
   | [] => true
@@ -85,6 +88,20 @@ Definition sub_bytes (buf : bytes) (from len : nat) : bytes := firstn len (skipn
 Definition slash_star : bytes := [47; 42].     (* "/*" *)
 Definition star_slash : bytes := [42; 47].     (* "*/" *)
 Definition slash_slash : bytes := [47; 47].    (* "//" *)
+Definition bom : bytes := [239; 187; 191].     (* EF BB BF: U+FEFF in UTF-8 *)
+
+(** isStringAt(buf, at, "\xef\xbb\xbf"): [bom_at], the bytewise test, is what the code does since
+    commit 2ecf680. [bom_at_runewise_old] documents the intermediate state of commit 0061363:
+    isStringAt iterated with [for i := range s], which walks the RUNES of s; the pattern is a single
+    rune, so after the length check only its first byte was compared and every three bytes starting
+    with EF inside a literal were taken for a byte order mark (found by this correspondence;
+    witness in TermProofs.v / Props/C16.v). *)
+Definition bom_at_bytewise (buf : bytes) (at_ : nat) : bool := is_string_at buf at_ bom.
+Definition bom_at_runewise_old (buf : bytes) (at_ : nat) : bool :=
+  (at_ + 3 <=? List.length buf) && is_char_at buf at_ 239.
+Definition bom_at := bom_at_bytewise.
+(** the six characters backslash u f e f f, most recent first (as pushed onto an accumulator) *)
+Definition bom_escape_rev : bytes := [102; 102; 101; 102; 117; 92].
 
 (* ------------------------------------------------------------------ scanSpaceToken *)
 
@@ -219,6 +236,8 @@ Fixpoint scan_string_loop (fuel : nat) (buf : bytes) (pos i : nat) (acc : bytes)
             | Some c2 => scan_string_loop f buf pos (S (S i)) (c2 :: c :: acc)
             end
         else if c =? 10 then scan_string_loop f buf pos (S i) (110 :: 92 :: acc)   (* raw newline: backslash, n (commit 46f7545) *)
+        else if bom_at buf (pos + i)
+        then scan_string_loop f buf pos (S (S (S i))) (bom_escape_rev ++ acc)      (* i += 2, then i++ *)
         else scan_string_loop f buf pos (S i) (c :: acc)
       end
   end.
@@ -238,6 +257,8 @@ Fixpoint scan_raw_loop (fuel : nat) (buf : bytes) (pos i : nat) (acc : bytes) : 
         else if c =? 92 then scan_raw_loop f buf pos (S i) (92 :: 92 :: acc)
         else if c =? 34 then scan_raw_loop f buf pos (S i) (34 :: 92 :: acc)
         else if c =? 10 then scan_raw_loop f buf pos (S i) (110 :: 92 :: acc)
+        else if bom_at buf (pos + i)
+        then scan_raw_loop f buf pos (S (S (S i))) (bom_escape_rev ++ acc)
         else scan_raw_loop f buf pos (S i) (c :: acc)
       end
   end.
